@@ -573,6 +573,42 @@ Proof.
   rewrite FA in F. discriminate.
 Qed.
 
+(* the non-exact search accepts only the index-free text of a model path or of an ancestor of one by whole
+   elements (fix 2e764cc; /sys/su is no ancestor of /sys/sub) *)
+Lemma found_prefix_whole_elements path rw :
+  find_path_from_model path rw false = FoundPrefix ->
+  exists e, In e rw /\
+    (remove_path_indices (rw_path e) = delete_search_key path \/
+     exists r, remove_path_indices (rw_path e) = trim_slash (delete_search_key path) ++ [c_slash] ++ r).
+Proof.
+  unfold find_path_from_model. destruct (rw_lookup rw (anonymize_path_indices path)); [discriminate|].
+  destruct (existsb _ rw) eqn:E; [|discriminate]. intros _.
+  apply existsb_exists in E. destruct E as (e & IN & A). exists e. split; [exact IN|].
+  unfold ancestor_or_self in A. apply orb_true_iff in A. destruct A as [A|A].
+  - left. apply eqb_str_eq. exact A.
+  - right. apply prefixb_spec in A. destruct A as (r & ->). exists r. rewrite <- app_assoc. reflexivity.
+Qed.
+
+(* every delete of an accepted Set names a model path of its target (list keys anonymised) or an ancestor of
+   one by whole elements *)
+Theorem accepted_delete_in_model strict cfg orc req t over0 p pl :
+  set_resolve strict cfg orc req = Ok t -> get_overrides (r_ext req) = Ok over0 -> In (RDel p) (ops_of req) ->
+  resolve_target cfg over0 (etgt (r_prefix req) (RDel p)) = Ok pl ->
+  let path := effective_path (r_prefix req) p in
+  (exists e, rw_lookup (pl_rw pl) (anonymize_path_indices path) = Some e) \/
+  (exists e, In e (pl_rw pl) /\
+     (remove_path_indices (rw_path e) = delete_search_key path \/
+      exists r, remove_path_indices (rw_path e) = trim_slash (delete_search_key path) ++ [c_slash] ++ r)).
+Proof.
+  intros H O I R path. destruct (accepted_all_checked _ _ _ _ _ H) as (ov & O' & A).
+  rewrite O in O'. injection O' as <-. destruct (A _ I) as (pl' & fl & R' & F).
+  rewrite R in R'. injection R' as <-. cbn in F. unfold del_landing, delete_landing in F. fold path in F.
+  destruct (find_path_from_model path (pl_rw pl) false) as [e| | |] eqn:FP; try discriminate.
+  - left. unfold find_path_from_model in FP. destruct (rw_lookup (pl_rw pl) (anonymize_path_indices path)) as [e'|]; [exists e'; reflexivity|].
+    destruct (existsb _ _); discriminate.
+  - right. apply found_prefix_whole_elements. exact FP.
+Qed.
+
 (* a list-key leaf whose value is not the value of that key in the path of its own list entry *)
 Corollary refused_key_contradiction strict cfg orc req over0 u pl e tv :
   get_overrides (r_ext req) = Ok over0 -> In (RUpd u) (ops_of req) ->
